@@ -382,3 +382,21 @@ def If(c, a, b):
 def Eq(a, b):
     r = (a == b)
     return r
+
+
+def StartsWith(s, prefix):
+    if isinstance(s, SStr):
+        return SBool(z3.PrefixOf(s._lit(prefix), s.t))
+    return s.startswith(prefix)
+
+
+def Len(s):
+    if isinstance(s, SStr):
+        return SInt(z3.Length(s.t))
+    return len(s)
+
+
+def Contains(s, sub):
+    if isinstance(s, SStr):
+        return SBool(z3.Contains(s.t, s._lit(sub)))
+    return sub in s
